@@ -59,6 +59,12 @@ def measured(call, seed, bs, ctxobj=None):
         m, d, extras = models.build(call[1])
         r = elfi.Rejection(m, d, output_names=extras, batch_size=bs, seed=seed)
         return _sample_obs(r.sample(3, n_sim=4 * bs, bar=False))
+    if name == 'rejection_again':
+        # the SAME model object was used by an earlier sampler run (samplers work on a copy of the user's model)
+        m, d, extras = models.build(call[1])
+        elfi.Rejection(m, d, output_names=extras, batch_size=bs, seed=11).sample(2, n_sim=3 * bs, bar=False)
+        r = elfi.Rejection(m, d, output_names=extras, batch_size=bs, seed=seed)
+        return _sample_obs(r.sample(3, n_sim=4 * bs, bar=False))
     if name == 'smc':
         m, d, extras = models.build('M1c')
         s = elfi.SMC(m, d, output_names=extras, batch_size=bs, seed=seed)
@@ -74,6 +80,7 @@ MEASURED = [
     # the SAME batch index computed before on the same handler (a recomputation must not see a consumed generator)
     ('compute', 'M1', 1, [1]), ('compute', 'M1', 0, [0, 0]), ('compute', 'M2', 2, [2]), ('compute', 'M1', 2, [2, 5, 2]),
     ('rejection', 'M1'), ('rejection', 'M2'), ('smc',),
+    ('rejection_again', 'M1'), ('rejection_again', 'M2'), ('rejection_again', 'Madapt'),
 ]
 
 # ------------------------------------------------------------------ history operations
@@ -118,11 +125,19 @@ def do_hist_op(op, bs):
 BASELINE = {}
 
 
+def _call_class(call):
+    if call[0] == 'rejection_again' and call[1] == 'Madapt':
+        return 'rejection_again:model-with-an-adaptive-distance'
+    return call[0]
+
+
 def _canonical_call(call):
     # a batch computed after other batches on the same handler must equal the batch computed alone
     call = tuple(call)
     if call[0] == 'compute':
         return (call[0], call[1], call[2], [])
+    if call[0] == 'rejection_again':
+        return ('rejection', call[1])
     return call
 
 
@@ -147,6 +162,7 @@ def run_history(case):
     models.native_client()
     hist = case['history']
     n = 0
+    first = None
     outcomes = set()
     for call in MEASURED:
         for seed in case['seeds']:
@@ -158,9 +174,12 @@ def run_history(case):
                 n += 1
                 outcomes.add(got)
                 if got != BASELINE[baseline_key(call, seed, bs)]:
-                    return bad('C02:result-depends-on-history:%s' % call[0],
-                               {'history': hist, 'call': call, 'seed': seed, 'bs': bs, 'uuid_offset': case.get('uuid_offset', 0)})
-    r = ok(outcome=None)
+                    v = bad('C02:result-depends-on-history:%s' % _call_class(call),
+                            {'history': hist, 'call': call, 'seed': seed, 'bs': bs, 'uuid_offset': case.get('uuid_offset', 0)})
+                    if _call_class(call) == call[0]:
+                        return v              # report at once (the remaining calls are not judged)
+                    first = first or v        # a class of its own: keep judging the other calls
+    r = first if first is not None else ok(outcome=None)
     r.update(evals=n, distinct=n if hist else 0, n_outcomes=len(outcomes))
     return r
 
@@ -177,7 +196,7 @@ def run_history_single(case):
             do_hist_op(op, case['bs'])
         got = digest(measured(call, case['seed'], case['bs']), opaque_by_id=False)
     if got != base:
-        return bad('C02:result-depends-on-history:%s' % call[0], case)
+        return bad('C02:result-depends-on-history:%s' % _call_class(call), case)
     return ok()
 
 
